@@ -497,8 +497,10 @@ def run(ctx):
     nworkers = int(os.environ.get("VERIF_JOBS", WORKERS_QUICK if ctx.quick() else WORKERS_THOROUGH))
     with cf.ThreadPoolExecutor(nworkers) as ex:
         futs = [ex.submit(run_case, env, c, ctx.scratch / ("case%d" % c["idx"])) for c in todo]
-        for c, f in zip(todo, futs):
+        for k, (c, f) in enumerate(zip(todo, futs)):
             results.append((c, f.result()))
+            if (k + 1) % 200 == 0:
+                ctx.log("%d/%d cases done" % (k + 1, len(todo)))
     ctx.log("all cases evaluated in %.0f s" % (time.time() - t_start))
     summarize(ctx, env, results, skipped, caps, stats)
     return ctx.finish(LEVEL, trusted_extra=[
